@@ -1061,8 +1061,9 @@ def _step_shape(ctx, rep, rule, stepf, attparam):
                         if cd[3] == MEMB and isin:
                             member = True
                             continue
-                        if cd[3] != MEMB and not isin and cd[3][0] in ('union', 'unk', 'comp', 'var'):
-                            continue       # "not yet collected"
+                        if cd[3] != MEMB and not isin and cd[3][0] in ('union', 'unk', 'comp', 'var') \
+                                and not (cd[3][0] == 'var' and cd[3][1] in list(stepf.params) + [stepf.vararg]):
+                            continue       # "not yet collected" (a parameter is not the set being collected)
                     extra.append(cd)
             rep.check(member, rule, "%s members only (set-builder form)" % ip.where(node), fn,
                       "neighbours are collected without testing membership in self.jobs: %s" % T.show(c, 3)[:160],
